@@ -23,7 +23,8 @@ def input_to_canonical_index(inputs: tp.Iterable[bool]) -> int:
     represents value of `i`th input.
 
     """
-    return int(''.join(str(int(v)) for v in inputs), 2)
+    # leading '0' keeps the empty sequence (a function without inputs) valid
+    return int('0' + ''.join(str(int(v)) for v in inputs), 2)
 
 
 def canonical_index_to_input(index: int, input_size: int) -> tp.Sequence[bool]:
